@@ -227,6 +227,20 @@ def rule_complete(repo: Repo) -> RuleResult:
             r.ok({"loop": f"for e in self.{lifted}: self.{grounded}.add({fn}(e, ...))", "filter": None})
         else:
             r.fail(Finding("C20.complete", f, f"effects-loop:{lifted}", f"not every element of {lifted} is grounded into {grounded}"))
+    # nothing is removed from / re-filtered in the grounded collections afterwards
+    r.site(f"{f.qn} [no pruning]")
+    pruned = []
+    for n in ast.walk(f.node):
+        if isinstance(n, ast.Assign) and any(isinstance(t, ast.Attribute) and t.attr in ("grounded_discrete_effects", "grounded_numeric_effects") for t in n.targets):
+            pruned.append(n)
+        if isinstance(n, ast.Call) and isinstance(n.func, ast.Attribute) and n.func.attr in ("discard", "remove", "pop", "clear", "difference_update", "intersection_update") \
+                and any(x[:2] in (("self", "attr:grounded_discrete_effects"), ("self", "attr:grounded_numeric_effects")) for x in p.trace(n.func.value)):
+            pruned.append(n)
+    if pruned:
+        r.fail(Finding("C20.complete", f, "effects-pruned", f"{unparse(pruned[0], 70)} removes / re-filters grounded effects after grounding: the reported literals are no "
+                       f"longer the substituted schema (e.g. a delete effect that is also added disappears for ?from == ?to)", node=pruned[0]))
+    else:
+        r.ok({"grounded_effects": "only added to"})
     # antecedents grounded with the same map
     r.site(f"{f.qn} [antecedents]")
     ac = [c for c in L.calls_in(f.node) if callee_name(c) == "ground_preconditions"]
@@ -266,10 +280,14 @@ def rule_complete(repo: Repo) -> RuleResult:
         r.ok({"conditional_groups": "one GroundedEffect per conditional effect with its own antecedents / effects; every group grounded and collected"})
     else:
         r.fail(Finding("C20.complete", o, "conditional-groups", "conditional effects are not grounded one group each (antecedents, discrete, numeric of the same effect)"))
-    r.require_sites(5)
+    r.require_sites(6)
     return r
 
 
 def rules(repo: Repo, tier: str) -> List[RuleResult]:
+    from . import c07
+    grounding = lambda f: f.mod.short in ("models.grounding_utils", "models.grounded_precondition", "models.grounded_effect", "models.pddl_operator")
     return [rule_zip(repo), rule_positional(repo), rule_constants(repo), rule_complete(repo), c02.rule_translate(repo, "C20.translate"),
+            # a grounded literal carries ITS argument types: it must not share (and overwrite) the domain's declaration or the action schema
+            c07.rule_write(repo, "C20.purity", floor=10, only=grounding),
             c01.rule_dupkeys(repo, "C20.dupkeys", [f"{GU}::_iterate_calc_tree_and_ground"])]
